@@ -397,18 +397,19 @@ def breadth_files(seed):
 
 
 def plan(tier, seed):
-    n, ns = (100, 4) if tier == "quick" else (2600, 12)
+    n, ns = (80, 4) if tier == "quick" else (2600, 12)
     jobs = [{"prop": PROP, "mode": "sched", "i": i, "nsched": ns, "want_dep": tier != "quick", "seed": H(seed, tier, PROP, "sched", i)} for i in range(n)]
-    nr = 40 if tier == "quick" else 600
+    nr = 30 if tier == "quick" else 600
     nc = len([p for p, s in workload.corpus() if os.sep + "corpus" + os.sep in p and p.startswith(workload.HERE)])
     jobs += [{"prop": PROP, "mode": "own", "i": i, "nsched": 3, "seed": H(seed, tier, PROP, "own", i)} for i in range(nc)]
     jobs += [{"prop": PROP, "mode": "repeat", "i": i, "nsched": 2, "seed": H(seed, tier, PROP, "repeat", i)} for i in range(nr)]
     nb = (len(breadth_files(seed)) + 11) // 12  # every un-fixed rule input, in both tiers
     jobs += [{"prop": PROP, "mode": "breadth", "i": i, "per": 12, "nsched": 0, "seed": seed} for i in range(nb)]
-    jobs += [{"prop": PROP, "mode": "cli-repeat", "i": i, "seed": H(seed, tier, PROP, "cli-repeat", i)} for i in range(30 if tier == "quick" else 1500)]
+    jobs += [{"prop": PROP, "mode": "cli-repeat", "i": i, "seed": H(seed, tier, PROP, "cli-repeat", i)} for i in range(24 if tier == "quick" else 1500)]
     # the driver does not import vsg: the shards compute the triple list, job i takes every 16th
     jobs += [{"prop": PROP, "mode": "exotic", "i": i, "of": 16, "seed": seed} for i in range(16)]
-    jobs += [{"prop": PROP, "mode": "ownswarm", "i": i, "of": 16, "seed": seed} for i in range(16)]
+    if tier != "quick":
+        jobs += [{"prop": PROP, "mode": "ownswarm", "i": i, "of": 16, "seed": seed} for i in range(16)]
     jobs += common.regress_jobs(PROP, 1)
     return jobs
 
